@@ -496,3 +496,53 @@ mod tests {
         assert_eq!(account_info.code_hash, B256::from([1; 32]).into());
     }
 }
+
+#[cfg(brc20_prog_verif)]
+impl<K, V, C> BlockCachedDatabase<K, V, C>
+where
+    K: Encode + Decode + Eq + Hash + Clone,
+    V: Encode + Decode + Eq + Clone,
+    C: BlockHistoryCache<V> + Encode + Decode + Clone,
+{
+    /// Verification hook: delete every row of both RocksDBs and the in-memory cache.
+    pub fn verif_wipe(&mut self) {
+        for d in [&self.db, &self.cache_db] {
+            let keys: Vec<Box<[u8]>> = d
+                .full_iterator(IteratorMode::Start)
+                .map(|kv| kv.expect("iter").0)
+                .collect();
+            for k in keys {
+                d.delete(&k).expect("delete");
+            }
+        }
+        self.cache.clear();
+    }
+
+    /// Verification hook: read-only dump of the complete representation.
+    pub fn verif_dump(&self, name: &'static str) -> crate::verif::VerifTableDump {
+        let rows = |d: &DB| -> Vec<(Vec<u8>, Vec<u8>)> {
+            d.full_iterator(IteratorMode::Start)
+                .map(|kv| {
+                    let (k, v) = kv.expect("iter");
+                    (k.to_vec(), v.to_vec())
+                })
+                .collect()
+        };
+        let mut cache: Vec<crate::verif::VerifCacheRow> = self
+            .cache
+            .iter()
+            .map(|(k, c)| crate::verif::VerifCacheRow {
+                key: k.encode_vec(),
+                history: c.encode_vec(),
+                latest: c.latest().map(|v| v.encode_vec()),
+            })
+            .collect();
+        cache.sort_by(|a, b| a.key.cmp(&b.key));
+        crate::verif::VerifTableDump {
+            name,
+            db: rows(&self.db),
+            cache_db: rows(&self.cache_db),
+            cache,
+        }
+    }
+}
